@@ -1,1 +1,438 @@
-/- C01: property theorems go here (only property theorems, non-vacuity examples, #print axioms). -/
+import StorageModel.Filter.DbProofs
+/-
+  C01 — Filter evaluation returns exactly the entities satisfying the predicate.
+
+  "For every stored dataset and every well-typed filter, a query returns exactly the ids of the
+  entities that satisfy the filter under the documented semantics: typed comparisons (=, !=, <, <=,
+  >, >=, in, between with inclusive lower and exclusive upper bound, contains, icontains and their
+  negations) with int-to-float and number-to-string coercion, null operands making every comparison
+  false except != and the negated forms, boolean connectives, and anyOf/allOf/count/isEmpty over
+  direct sets, dotted (linked) symbols, map fields and sub-queries. No matching entity is omitted and
+  no non-matching entity is returned, and the answer never depends on which internal shortcut (for
+  example an index seek instead of a scan) the engine happens to take."
+
+  Model (executable, follows the Go code branch by branch):
+    Filter/Syntax     the untyped tree of ast/bolt_listener.go, the typed node classes
+    Filter/Transform  SymbolValidator + node_convert.go (getTypedExpr, handle*Ops, handleCaseInsensitive,
+                      InArray/Between getTypedExpr, SetFunctionNode.TypeTransform/MoveUpTree/specializeSetAnyOf)
+    Filter/Eval       EvalBool/EvalString/EvalInt64/EvalFloat64/EvalDatetime of every node class, the seek
+                      shortcut, the paging scanner of sub-queries, over an abstract ast.Symbols (`World`)
+    Filter/Basic      stored values and the FieldTo* coercions
+    Filter/Db         stores, GetSymbol / createCompositeEntitySymbol, symbol evaluation on rows, the
+                      stacked cursor, sub-query rows, Store.QueryIds (`modelWorld`, `query`) and the path
+                      semantics of dotted symbols (`specWorld`, `specQuery`)
+  Spec: Filter/Spec (`sat`, `wellTyped`).
+
+  All theorems hold for every symbol-table family `Sigma T`, every `World C F`, every `FloatOps F`.
+-/
+namespace StorageModel.Properties.C01
+open StorageModel StorageModel.Filter
+
+variable {C F T : Type}
+
+/-- **Every well-typed filter is accepted**: symbol validation passes and the type transformation
+    produces a BoolNode — no error, no panic. -/
+theorem transform_total (sg : Sigma T) (fo : FloatOps F) (t : T) (f : U F)
+    (h : wellTyped sg fo t f = true) : ∃ p, typeCheck sg fo t f = .ok p := by
+  let w : World Empty F := { val := fun c _ => c.elim, elems := fun c _ => c.elim,
+                              seekable := fun c _ => c.elim, subRows := fun c _ => c.elim,
+                              nilRow := fun c => c.elim }
+  have hnn : ∀ (f : U F) (t : T), subRowsNonNil sg w t f := by
+    intro f
+    induction f with
+    | setFnSub fn n q sk li ih => intro t; exact ⟨fun c => c.elim, fun t' _ => ih t'⟩
+    | cmp op l r ih => intro t; exact ih t
+    | inArr l arr ih => intro t; exact ih t
+    | between l lo hi ih => intro t; exact ih t
+    | notE e ih => intro t; exact ih t
+    | unot e ih => intro t; exact ih t
+    | logic o l r ihl ihr => intro t; exact ⟨ihl t, ihr t⟩
+    | sym n => intro t; trivial
+    | setFn fn n => intro t; trivial
+    | boolC b => intro t; trivial
+  obtain ⟨p, hp, hb, _⟩ := (refine_main sg w fo (fun c => c.elim) f t).1 h (hnn f t)
+  refine ⟨p, ?_⟩
+  have hv := (validate_ok sg fo f t).1 h false
+  unfold typeCheck
+  cases hvv : validate sg t false f with
+  | none => simp [hvv] at hv
+  | some _ => simp [asBool, hp, hb]
+
+/-- **Refinement (the headline theorem)**: for every well-typed filter, on every row, the typed tree
+    the engine builds evaluates to exactly what the specification says — provided every seekable
+    cursor ranges over a sorted string bucket (`SeekOK`, true of every bbolt bucket of strings) and
+    no sub-query of the filter ranges over a cursor that yields a nil key (`subRowsNonNil`, see
+    `nil_row_violates`; trivially true of filters without sub-queries). -/
+theorem eval_refines_sat (sg : Sigma T) (w : World C F) (fo : FloatOps F) (hw : SeekOK w)
+    (t : T) (f : U F) (h : wellTyped sg fo t f = true) (hn : subRowsNonNil sg w t f)
+    (p : TNode F) (hp : typeCheck sg fo t f = .ok p) (c : C) :
+    evalRow w fo c p = sat sg w fo t c f := by
+  obtain ⟨p', hp', hbool, he⟩ := (refine_main sg w fo hw f t).1 h hn
+  have hv := (validate_ok sg fo f t).1 h false
+  unfold typeCheck at hp
+  cases hvv : validate sg t false f with
+  | none => simp [hvv] at hv
+  | some _ =>
+    simp [hvv, asBool, hp', hbool] at hp
+    subst hp
+    exact he c
+
+/-- The full statement of the property at the level of one row: no hypothesis on sub-query rows.
+    It is FALSE for the code as it is (`nil_row_violates`); `eval_refines_sat` is the part that holds. -/
+def eval_refines_sat_fullStatement : Prop :=
+  ∀ (sg : Sigma Nat) (w : World Ctx Float) (fo : FloatOps Float), SeekOK w →
+    ∀ (t : Nat) (f : U Float), wellTyped sg fo t f = true →
+      ∀ p, typeCheck sg fo t f = .ok p → ∀ c, evalRow w fo c p = sat sg w fo t c f
+
+/-- **The seek shortcut never changes an answer**: positioning a cursor at the first key ≥ the
+    compared string and testing only that element equals scanning the whole (sorted, duplicate free,
+    string) bucket for an equal element. -/
+theorem seek_eq_scan (fo : FloatOps F) (es : List (SVal F)) (v : Bytes) (h : SortedStrs es) :
+    (match seekTo es v with
+     | some e => e.toStr fo == some v
+     | none => false) = es.any (fun e => e.toStr fo == some v) := by
+  obtain ⟨ss, rfl, hss⟩ := h
+  have := seek_any fo v (fun e => e.toStr fo == some v) (by intro s; simp [SVal.toStr]) ss hss
+  exact this
+
+/-- non-vacuity of `SortedStrs` -/
+example : SortedStrs (F := Float) [.str [97], .str [97, 98], .str [98]] :=
+  ⟨[[97], [97, 98], [98]], rfl, by decide⟩
+
+/-- the world with every cursor demoted to a plain (non-seekable) one -/
+def noSeek (w : World C F) : World C F := { w with seekable := fun _ _ => false }
+
+theorem sat_noSeek (sg : Sigma T) (w : World C F) (fo : FloatOps F) :
+    ∀ (f : U F) (t : T) (c : C), sat sg (noSeek w) fo t c f = sat sg w fo t c f ∧
+      lhsDen sg (noSeek w) fo t c f = lhsDen sg w fo t c f := by
+  intro f
+  induction f with
+  | sym n => intro t c; simp [sat, lhsDen, noSeek]
+  | setFn fn n => intro t c; cases fn <;> simp [sat, lhsDen, noSeek]
+  | setFnSub fn n q sk li ih =>
+    intro t c
+    have : ∀ t', (fun c' => sat sg (noSeek w) fo t' c' q) = (fun c' => sat sg w fo t' c' q) :=
+      fun t' => funext fun c' => (ih t' c').1
+    cases fn <;> cases hst : sg.setTypes t n <;> simp [sat, lhsDen, hst, this] <;> simp [noSeek]
+  | boolC b => intro t c; simp [sat, lhsDen]
+  | cmp op l r ih => intro t c; simp [sat, lhsDen, (ih t c).2]
+  | inArr l arr ih => intro t c; simp [sat, lhsDen, (ih t c).2]
+  | between l lo hi ih => intro t c; simp [sat, lhsDen, (ih t c).2]
+  | notE e ih => intro t c; simp [sat, lhsDen, (ih t c).1]
+  | unot e ih => intro t c; simp [sat, lhsDen, (ih t c).1]
+  | logic o l r ihl ihr => intro t c; simp [sat, lhsDen, (ihl t c).1, (ihr t c).1]
+
+theorem subRowsNonNil_noSeek (sg : Sigma T) (w : World C F) :
+    ∀ (f : U F) (t : T), subRowsNonNil sg w t f → subRowsNonNil sg (noSeek w) t f := by
+  intro f
+  induction f with
+  | setFnSub fn n q sk li ih => intro t h; exact ⟨h.1, fun t' ht' => ih t' (h.2 t' ht')⟩
+  | cmp op l r ih => intro t h; exact ih t h
+  | inArr l arr ih => intro t h; exact ih t h
+  | between l lo hi ih => intro t h; exact ih t h
+  | notE e ih => intro t h; exact ih t h
+  | unot e ih => intro t h; exact ih t h
+  | logic o l r ihl ihr => intro t h; exact ⟨ihl t h.1, ihr t h.2⟩
+  | sym n => intro t _; trivial
+  | setFn fn n => intro t _; trivial
+  | boolC b => intro t _; trivial
+
+/-- **The answer does not depend on the shortcut**: evaluating with seekable cursors and with plain
+    cursors gives the same value, for every well-typed filter on every row. -/
+theorem query_shortcut_free (sg : Sigma T) (w : World C F) (fo : FloatOps F) (hw : SeekOK w)
+    (t : T) (f : U F) (h : wellTyped sg fo t f = true) (hn : subRowsNonNil sg w t f)
+    (p : TNode F) (hp : typeCheck sg fo t f = .ok p) (c : C) :
+    evalRow w fo c p = evalRow (noSeek w) fo c p := by
+  rw [eval_refines_sat sg w fo hw t f h hn p hp c,
+      eval_refines_sat sg (noSeek w) fo (fun c n hs => by simp [noSeek] at hs) t f h
+        (subRowsNonNil_noSeek sg w f t hn) p hp c,
+      (sat_noSeek sg w fo f t c).1]
+
+/-- **Sub-query counts are exact**: the paging scanner behind `count(from s where q skip k limit m)`
+    yields exactly as many rows as "filter, drop k, take m" keeps (no row with a nil key). -/
+theorem subquery_count_exact (m nil : C → Bool) (skip limit : Option Int) (rows : List C)
+    (hn : ∀ r ∈ rows, nil r = false) :
+    scanCount m nil (pagingOffset skip) (pagingLimit limit) rows 0 0 = (paged skip limit (rows.filter m)).length :=
+  scanCount_paged m nil skip limit rows hn
+
+/-- **Null rules of the specification** (and hence, by `eval_refines_sat`, of the engine): with a
+    null left operand and a non-null literal, a well-typed comparison — bool comparisons included —
+    is true exactly for `!=`, `not contains` and `not icontains`. -/
+theorem null_rules (fo : FloatOps F) (τ : NodeType) (op : Op) (r : Lit F) (hr : r ≠ .null)
+    (h : okCmp τ true op r = true) :
+    satCmp fo τ op .nil r = decide (op = .ne ∨ op = .ncontains ∨ op = .nicontains) := by
+  cases τ <;> cases op <;> cases r <;>
+    simp_all [okCmp, cmpType, satCmp, withNull, SVal.toBool, SVal.toInt, SVal.toFloat, SVal.toTime, SVal.toStr,
+      readStr, readFloat, litBool, litTime, litInt, litFloat, litStr]
+
+/-- the same null rules for the engine itself: a well-typed comparison of a symbol whose stored value
+    is nil (`flag = false`, `n < 3`, `name contains "x"`, ...) evaluates to true exactly for `!=`,
+    `not contains` and `not icontains` -/
+theorem engine_null_rules (sg : Sigma T) (w : World C F) (fo : FloatOps F) (hw : SeekOK w)
+    (t : T) (n : String) (op : Op) (r : Lit F) (hr : r ≠ .null)
+    (h : wellTyped sg fo t (.cmp op (.sym n) r) = true)
+    (p : TNode F) (hp : typeCheck sg fo t (.cmp op (.sym n) r) = .ok p) (c : C) (hnil : w.val c n = .nil) :
+    evalRow w fo c p = decide (op = .ne ∨ op = .ncontains ∨ op = .nicontains) := by
+  rw [eval_refines_sat sg w fo hw t _ h trivial p hp c]
+  simp only [sat, lhsDen, LhsDen.holds, hnil]
+  have hok : okCmp (symType sg t n) true op r = true := by
+    simp only [wellTyped, lhsType] at h
+    cases hs : sg.sym t n with
+    | none => simp [hs] at h
+    | some x =>
+      obtain ⟨τ, b⟩ := x
+      cases b <;> simp [hs] at h
+      by_cases hτ : τ = .other
+      · simp [hτ] at h
+      · simp [hτ] at h; simpa [symType, hs] using h
+  rw [null_rules fo _ op r hr hok]
+
+/-- `= null` holds exactly for nil values and `!= null` exactly for the others. -/
+theorem null_literal_rule (fo : FloatOps F) (τ : NodeType) (sv : SVal F) :
+    satCmp fo τ .eq sv .null = sv.isNil ∧ satCmp fo τ .ne sv .null = !sv.isNil := by
+  simp [satCmp]
+
+/-- `not in`, `not between` and `not` are the negations of the positive forms. -/
+theorem not_forms_negate (sg : Sigma T) (w : World C F) (fo : FloatOps F) (t : T) (c : C) (e : U F) :
+    sat sg w fo t c (.notE e) = !sat sg w fo t c e ∧ sat sg w fo t c (.unot e) = !sat sg w fo t c e := by
+  simp [sat]
+
+def witFo : FloatOps Float where
+  eq a b := a == b
+  lt a b := decide (a < b)
+  le a b := decide (a ≤ b)
+  ofInt := Float.ofInt
+  fmt _ := []
+
+/-- non-vacuity of the hypotheses of `eval_refines_sat`: a well-typed filter over a world with a
+    seekable sorted string set, a bool field that is null, and a null string field -/
+def exSigma : Sigma Unit where
+  sym _ n :=
+    if n = "flag" then some (.bool, false) else if n = "name" then some (.str, false)
+    else if n = "roles" then some (.str, true) else none
+  setTypes _ _ := none
+
+def exWorld : World Unit Float where
+  val _ _ := .nil
+  elems _ n := if n = "roles" then [.str [97], .str [98]] else []
+  seekable _ n := n = "roles"
+  subRows _ _ := []
+  nilRow _ := false
+
+def exFilter : U Float :=
+  .logic false (.cmp .ne (.sym "flag") (.bool true))
+    (.logic true (.cmp .eq (.setFn .anyOf "roles") (.str [98])) (.cmp .ne (.sym "name") (.str [120])))
+
+example : wellTyped exSigma witFo () exFilter = true := by decide
+example : SeekOK exWorld := by
+  intro c n h
+  have : n = "roles" := by simpa [exWorld] using h
+  subst this
+  exact ⟨[[97], [98]], rfl, by decide⟩
+example : subRowsNonNil exSigma exWorld () exFilter := by simp [exFilter, subRowsNonNil]
+/-- `flag != true` holds on a row whose flag is null; `flag = false` does not (df0c801) -/
+example : sat exSigma exWorld witFo () () exFilter = true := by decide
+example : sat exSigma exWorld witFo () () (.cmp .eq (.sym "flag") (.bool false)) = false := by decide
+
+/-! ### the bolt-backed store -/
+
+/-- **The stacked cursor of a composite set symbol enumerates exactly the path semantics**:
+    follow every link of the dotted name, collect the values, with multiplicity and in order. -/
+theorem stacked_eq_flatMap (db : Db F) (chain : List Atom) (key : Option Bytes) :
+    stackedElems db chain key = pathElems db chain key :=
+  Filter.stacked_eq_flatMap db chain key
+
+/-- The world the code computes (`modelWorld`) and the path semantics (`specWorld`) agree on every
+    symbol: same values, same set elements; and the same sub-query rows for symbols with a plain
+    cursor whose elements are all non-null. -/
+theorem world_refines_spec (db : Db F) (c : Ctx) (n : String) :
+    (modelWorld db).elems c n = (specWorld db).elems c n ∧
+    (modelWorld db).val c n = (specWorld db).val c n ∧
+    (namePlain db.defs c.1 n = true →
+      (∀ c' ∈ (modelWorld db).subRows c n, (modelWorld db).nilRow c' = false) →
+      (modelWorld db).subRows c n = (specWorld db).subRows c n) :=
+  world_elems_eq db c n
+
+/-- **`Store.QueryIds` returns exactly the satisfying ids**: for every database whose set buckets
+    are sorted string buckets, every store, every well-typed filter whose sub-queries range over
+    plain cursors without null links: no matching entity is omitted, no non-matching entity is
+    returned. -/
+theorem query_exact (db : Db F) (fo : FloatOps F) (st : Nat) (f : U F)
+    (hwf : WellFormedDb db) (hwt : wellTyped (dbSigma db.defs) fo st f = true)
+    (hn : subRowsNonNil (dbSigma db.defs) (modelWorld db) st f) (hp : subQueriesPlain db.defs st f = true) :
+    query db fo st f = .ok (specQuery db fo st f) := by
+  obtain ⟨p, hpp⟩ := transform_total (dbSigma db.defs) fo st f hwt
+  unfold query specQuery
+  rw [hpp]
+  simp only
+  congr 1
+  apply List.filter_congr
+  intro id _
+  rw [eval_refines_sat (dbSigma db.defs) (modelWorld db) fo (modelWorld_seekOK db hwf) st f hwt hn p hpp (st, some id)]
+  exact (sat_world_eq db fo f st (st, some id) rfl hp hn).1
+
+/-- Filters without sub-queries need neither of the two sub-query hypotheses: comparisons,
+    in / between, connectives, anyOf / allOf / count / isEmpty over direct sets, dotted symbols of any
+    depth and map elements are exact on every well-formed database. -/
+theorem query_exact_no_subquery (db : Db F) (fo : FloatOps F) (st : Nat) (f : U F)
+    (hwf : WellFormedDb db) (hwt : wellTyped (dbSigma db.defs) fo st f = true)
+    (hs : noSubQuery f = true) :
+    query db fo st f = .ok (specQuery db fo st f) :=
+  query_exact db fo st f hwf hwt (subRowsNonNil_of_noSubQuery _ _ f st hs)
+    (subQueriesPlain_of_noSubQuery db.defs f st hs)
+
+/-- The full statement for queries (no hypothesis on sub-queries).  FALSE for the code as it is:
+    `nil_row_violates`, `subquery_tail_violates`. -/
+def query_exact_fullStatement : Prop :=
+  ∀ (db : Db Float) (fo : FloatOps Float) (st : Nat) (f : U Float), WellFormedDb db →
+    wellTyped (dbSpecSigma db.defs) fo st f = true → query db fo st f = .ok (specQuery db fo st f)
+
+/-! ### known deviation 1: a null link inside the dotted set symbol of a sub-query
+
+  `count(from members.owner where true)`: the stacked cursor yields one element per member, a nil key
+  for a member without owner.  `uniqueIndexScanner.Next` stores `cursor.Current()` (nil) as its
+  current row; when that row matches the inner filter the scanner reports `IsValid() == false` and
+  the counting loop stops — the remaining owners are never counted. -/
+
+def nilDb : Db Float where
+  defs := [{ syms := [("id", .id), ("owner", .field .str (some 1))], maps := [] },
+           { syms := [("id", .id), ("members", .set .str (some 0))], maps := [] }]
+  rows := [[{ id := [97, 49], fields := [], sets := [], maps := [] },
+            { id := [97, 50], fields := [("owner", .str [98, 49])], sets := [], maps := [] }],
+           [{ id := [98, 49], fields := [], sets := [("members", [.str [97, 49], .str [97, 50]])], maps := [] }]]
+
+/-- `count(from members.owner where true) = 1`, asked of the owners -/
+def nilFilter : U Float := .cmp .eq (.setFnSub .count "members.owner" (.boolC true) none none) (.int 1)
+
+theorem nil_row_violates :
+    wellTyped (dbSpecSigma nilDb.defs) witFo 1 nilFilter = true ∧
+    specQuery nilDb witFo 1 nilFilter = [[98, 49]] ∧
+    query nilDb witFo 1 nilFilter = .ok [] := by
+  refine ⟨by decide, by decide, by decide⟩
+
+/-! ### known deviation 2: a sub-query over a set followed by two or more links
+
+  For `from groups.boss.boss where …` `createCompositeEntitySymbol` builds a compositeEntitySetSymbol
+  whose iterable chain is `groups` alone; `OpenSetCursorForQuery` scans the cursor's keys — the groups —
+  and `GetLinkedType` / `GetSetSymbolTypes` answer for `groups`, not for the entities the path leads to. -/
+
+def tailDb : Db Float where
+  defs := [{ syms := [("id", .id), ("groups", .set .str (some 1))], maps := [] },
+           { syms := [("id", .id), ("boss", .field .str (some 1)), ("label", .field .str none)], maps := [] }]
+  rows := [[{ id := [97, 49], fields := [], sets := [("groups", [.str [98, 49]])], maps := [] }],
+           [{ id := [98, 49], fields := [("boss", .str [98, 50])], sets := [], maps := [] },
+            { id := [98, 50], fields := [("boss", .str [98, 51])], sets := [], maps := [] },
+            { id := [98, 51], fields := [("label", .str [120])], sets := [], maps := [] }]]
+
+/-- `count(from groups.boss.boss where label = "x") = 1` -/
+def tailFilter : U Float :=
+  .cmp .eq (.setFnSub .count "groups.boss.boss" (.cmp .eq (.sym "label") (.str [120])) none none) (.int 1)
+
+theorem subquery_tail_violates :
+    wellTyped (dbSpecSigma tailDb.defs) witFo 0 tailFilter = true ∧
+    specQuery tailDb witFo 0 tailFilter = [[97, 49]] ∧
+    query tailDb witFo 0 tailFilter = .ok [] := by
+  refine ⟨by decide, by decide, by decide⟩
+
+theorem wellFormed_of_sets (db : Db Float)
+    (h : ∀ rows ∈ db.rows, ∀ e ∈ rows, ∀ p ∈ e.sets, SortedStrs p.2) : WellFormedDb db := by
+  intro st id e he k es hl
+  simp only [findEntity] at he
+  cases hr : db.rows[st]? with
+  | none => simp [hr] at he
+  | some rows =>
+    simp only [hr] at he
+    have hmem : e ∈ rows := List.mem_of_find?_eq_some he
+    have hrows : rows ∈ db.rows := List.mem_of_getElem? hr
+    have : (k, es) ∈ e.sets := by
+      have := List.lookup_eq_some_iff.mp hl
+      obtain ⟨l1, l2, h1, _⟩ := this
+      rw [h1]; simp
+    exact h rows hrows e hmem (k, es) this
+
+theorem query_exact_full_fails : ¬ query_exact_fullStatement := by
+  intro h
+  have hwf : WellFormedDb nilDb := by
+    apply wellFormed_of_sets
+    intro rows hrows e he p hp
+    simp only [nilDb, List.mem_cons, List.mem_nil_iff, or_false] at hrows
+    rcases hrows with rfl | rfl
+    · simp only [List.mem_cons, List.mem_nil_iff, or_false] at he
+      rcases he with rfl | rfl <;> simp at hp
+    · simp only [List.mem_cons, List.mem_nil_iff, or_false] at he
+      subst he
+      simp only [List.mem_cons, List.mem_nil_iff, or_false] at hp
+      subst hp
+      exact ⟨[[97, 49], [97, 50]], rfl, by decide⟩
+  have := h nilDb witFo 1 nilFilter hwf nil_row_violates.1
+  rw [nil_row_violates.2.2, nil_row_violates.2.1] at this
+  exact absurd this (by decide)
+
+/-- non-vacuity of the hypotheses of `query_exact`: two linked stores, three rows, a filter that
+    uses a dotted set symbol, a direct (seekable) set, a bool comparison on a null flag and a sub-query -/
+def exDb : Db Float where
+  defs := [{ syms := [("id", .id), ("name", .field .str none), ("flag", .field .bool none), ("roles", .set .str none),
+                      ("owner", .field .str (some 1)), ("groups", .set .str (some 1))], maps := [("tags", .any)] },
+           { syms := [("id", .id), ("label", .field .str none), ("boss", .field .str (some 1)),
+                      ("members", .set .str (some 0))], maps := [] }]
+  rows := [[{ id := [97, 49], fields := [("name", .str [110]), ("owner", .str [98, 49])],
+              sets := [("roles", [.str [120], .str [121]]), ("groups", [.str [98, 49]])], maps := [("tags", [("k", .int64 5)])] },
+            { id := [97, 50], fields := [], sets := [], maps := [] }],
+           [{ id := [98, 49], fields := [("label", .str [76]), ("boss", .str [98, 50])],
+              sets := [("members", [.str [97, 49], .str [97, 50]])], maps := [] },
+            { id := [98, 50], fields := [("label", .str [77])], sets := [], maps := [] }]]
+
+def exDbFilter : U Float :=
+  .logic false (.cmp .eq (.setFn .anyOf "groups.boss.label") (.str [77]))
+    (.logic true (.cmp .eq (.setFn .anyOf "roles") (.str [121]))
+      (.logic false (.cmp .ne (.sym "flag") (.bool true))
+        (.cmp .ge (.setFnSub .count "groups" (.cmp .ne (.sym "label") (.str [])) none (some 1)) (.int 1))))
+
+example : wellTyped (dbSigma exDb.defs) witFo 0 exDbFilter = true := by decide
+example : subQueriesPlain exDb.defs 0 exDbFilter = true := by decide
+theorem exDb_wellFormed : WellFormedDb exDb := by
+  apply wellFormed_of_sets
+  intro rows hrows e he p hp
+  simp only [exDb, List.mem_cons, List.mem_nil_iff, or_false] at hrows
+  rcases hrows with rfl | rfl <;> simp only [List.mem_cons, List.mem_nil_iff, or_false] at he <;>
+    rcases he with rfl | rfl <;> simp only [List.mem_cons, List.mem_nil_iff, or_false] at hp <;>
+    first
+    | exact hp.elim
+    | (rcases hp with rfl | rfl
+       · exact ⟨[[120], [121]], rfl, by decide⟩
+       · exact ⟨[[98, 49]], rfl, by decide⟩)
+    | (subst hp; exact ⟨[[97, 49], [97, 50]], rfl, by decide⟩)
+
+example : subRowsNonNil (dbSigma exDb.defs) (modelWorld exDb) 0 exDbFilter := by
+  simp only [exDbFilter, subRowsNonNil]
+  refine ⟨trivial, trivial, trivial, ⟨?_, fun _ _ => trivial⟩⟩
+  apply directSet_rows_nonNil exDb exDb_wellFormed "groups"
+  intro t
+  have : t = 0 ∨ t = 1 ∨ t ≥ 2 := by omega
+  rcases this with rfl | rfl | h2
+  · have : resolve exDb.defs 0 (splitName "groups") = some (.atom (.set 0 "groups" .str (some 1))) := by decide
+    rw [this]; trivial
+  · have : resolve exDb.defs 1 (splitName "groups") = none := by decide
+    rw [this]; trivial
+  · rw [resolve_out_of_range exDb.defs t (by simp [exDb]; omega)]; trivial
+example : query exDb witFo 0 exDbFilter = .ok [[97, 49]] := by decide
+example : specQuery exDb witFo 0 exDbFilter = [[97, 49]] := by decide
+
+end StorageModel.Properties.C01
+
+#print axioms StorageModel.Properties.C01.transform_total
+#print axioms StorageModel.Properties.C01.eval_refines_sat
+#print axioms StorageModel.Properties.C01.seek_eq_scan
+#print axioms StorageModel.Properties.C01.query_shortcut_free
+#print axioms StorageModel.Properties.C01.subquery_count_exact
+#print axioms StorageModel.Properties.C01.null_rules
+#print axioms StorageModel.Properties.C01.engine_null_rules
+#print axioms StorageModel.Properties.C01.null_literal_rule
+#print axioms StorageModel.Properties.C01.not_forms_negate
+#print axioms StorageModel.Properties.C01.stacked_eq_flatMap
+#print axioms StorageModel.Properties.C01.world_refines_spec
+#print axioms StorageModel.Properties.C01.query_exact
+#print axioms StorageModel.Properties.C01.query_exact_no_subquery
+#print axioms StorageModel.Properties.C01.nil_row_violates
+#print axioms StorageModel.Properties.C01.subquery_tail_violates
+#print axioms StorageModel.Properties.C01.query_exact_full_fails
